@@ -24,7 +24,7 @@ vars == <<ph, case, out>>
 
 -----------------------------------------------------------------------------
 (* Part 1 *)
-Names == {"P", "Q"}
+Names == {"P", "z"}
 Vers == { <<1, 0>>, <<1, 213>>, <<2, 0>> }          \* a minor above 99 next to a newer major
 FilePool == { [root |-> r, depth |-> d, name |-> n, maj |-> v[1], min |-> v[2], ext |-> e] :
                 r \in {"t", "l"}, d \in 0..2, n \in Names, v \in Vers, e \in {"dsdl", "uavcan"} }
@@ -32,11 +32,19 @@ FilePool == { [root |-> r, depth |-> d, name |-> n, maj |-> v[1], min |-> v[2], 
 Key(f) == <<f.root, f.depth, f.name, f.maj, f.min>>
 Injective(S) == \A a, b \in S : a # b => Key(a) # Key(b)
 
-\* full name rank: r.P < r.Q < r.n1.P < r.n1.Q < r.n1.n2.P ...  (lexicographic on the dotted name: "P" < "Q" < "n1")
-FullNameRank(f) == f.depth * 10 + (IF f.name = "P" THEN 1 ELSE 2)
-Before(a, b) == \/ FullNameRank(a) < FullNameRank(b)
-                \/ FullNameRank(a) = FullNameRank(b) /\ a.maj > b.maj
-                \/ FullNameRank(a) = FullNameRank(b) /\ a.maj = b.maj /\ a.min > b.min
+\* "sorted by full name": the dotted names compare as strings, which for name characters (all above the dot) is the
+\* lexicographic order of the component sequences; a lower-case type name ("z") sorts AFTER the nested namespaces
+\* ("n1", "n2"), an upper-case one before them
+CompRank(c) == CASE c = "P" -> 1 [] c = "Q" -> 2 [] c = "n1" -> 3 [] c = "n2" -> 4 [] c = "r" -> 5 [] c = "z" -> 6
+NameSeq(f) == <<"r">> \o (IF f.depth = 0 THEN <<>> ELSE IF f.depth = 1 THEN <<"n1">> ELSE <<"n1", "n2">>) \o <<f.name>>
+RECURSIVE LexLess(_, _)
+LexLess(a, b) == IF a = <<>> THEN b # <<>>
+                 ELSE IF b = <<>> THEN FALSE
+                 ELSE IF Head(a) # Head(b) THEN CompRank(Head(a)) < CompRank(Head(b))
+                 ELSE LexLess(Tail(a), Tail(b))
+Before(a, b) == \/ LexLess(NameSeq(a), NameSeq(b))
+                \/ NameSeq(a) = NameSeq(b) /\ a.maj > b.maj
+                \/ NameSeq(a) = NameSeq(b) /\ a.maj = b.maj /\ a.min > b.min
 RECURSIVE SortFiles(_)
 SortFiles(S) == IF S = {} THEN <<>>
                 ELSE LET m == CHOOSE x \in S : \A y \in S \ {x} : Before(x, y) IN <<m>> \o SortFiles(S \ {m})
